@@ -14,6 +14,7 @@ import (
 	"fmt"
 	"os"
 	"os/exec"
+	"os/signal"
 	"path/filepath"
 	"regexp"
 	"runtime"
@@ -21,6 +22,7 @@ import (
 	"strconv"
 	"strings"
 	"sync"
+	"syscall"
 	"time"
 
 	"verif/internal/instr"
@@ -182,6 +184,17 @@ func main() {
 		}
 	}
 	exit := func(code int) { cleanup(); os.Exit(code) }
+	// a reader that closes the pipe early (`check ... | head`) or an interrupt must not leave the scratch
+	// directory (instrumented sources, test binaries) behind: writes to a closed pipe just fail, and
+	// SIGINT/SIGTERM/SIGHUP clean up before exiting
+	signal.Ignore(syscall.SIGPIPE)
+	sigc := make(chan os.Signal, 1)
+	signal.Notify(sigc, syscall.SIGINT, syscall.SIGTERM, syscall.SIGHUP)
+	go func() {
+		<-sigc
+		cleanup()
+		os.Exit(130)
+	}()
 
 	if *replay != "" {
 		exit(doReplay(checks[0], *replay, scratch))
